@@ -1230,6 +1230,7 @@ func TestCheck(t *testing.T) {
 	start := time.Now()
 	if os.Getenv("VERIF_REPLAY") == "" {
 		treeShapes(t, rep, shard, of)
+		longDrains(t, rep)
 	}
 	rep.Info["rule"] = "case = state of a real write scheduler (canonical dump of its whole private structure + stream states + windows) reached by a sequence of interface operations; BFS per job (scheduler × configuration × alphabet) to the job's depth, every enabled operation of the alphabet from every distinct state; a transition is non-trivial/distinct by (scheduler, operation kind, outcome class) = distinct_nontrivial"
 	rep.Assume("two histories with the same canonical dump (scheduler structure incl. queues, tree links, byte counters, retention lists, throttle limit; stream states; windows) have the same futures up to renaming of frame identities — the dump lists every field the scheduler code reads",
